@@ -268,8 +268,9 @@ CONFIG = {
         "custom Retryable predicates (harness and model): a status table, a rule for other statuses and one for transport errors, each retry / stop / fail; a failing predicate returns the transport's error for errors and its own error for responses (model: RPredErr); the theorems hold for every predicate",
         "blobStore.Push is modelled as POST (no body) then, on 202, PUT with the blob; the PUT passes through the auth client unchanged iff the POST's last request carried Authorization (resp.Request as set by the transport); empty token cache; Location handling, digest query and mounting are C13's",
         "strconv.ParseInt(s, 10, 64) is hand-modelled (parse_int64: sign, decimal digits, ParseUint's early return at the point of uint64 overflow, saturation to int64, 0 on syntax errors) and tied to the library by its own correspondence stream (op I: 3000 / 200000 random and boundary strings per run) besides the Retry-After pool",
-        "the token request of a Bearer challenge (fetchDistributionToken GET / fetchOAuth2Token POST through the same retrying client) is inside the model for the cold-cache auth client (auth_do_tok, op Q: scripted token service, answers other than 200 end Do with the token service's error, fetch before rewind as in the source); in the warm-cache, blob-push and manifest-push flows (ops W V U X Y M I) the token service answers 200 at once -- C17_token_instant_refines proves that the coarser model is the finer one for such a token service; the JSON decoding of the token answer and the Www-Authenticate parsing (parseChallenge) are not modelled (fixed well-formed answers; C16's)",
+        "the token request of a Bearer challenge (fetchDistributionToken GET / fetchOAuth2Token POST through the same retrying client) is inside the model for the cold-cache auth client (auth_do_tok, op Q: scripted token service, answers other than 200 end Do with the token service's error, fetch before rewind as in the source); for the cold-cache blob push (blob_push_tok, op Z: the POST's and the PUT's token requests, the token service's script shared between them); in the warm-cache, mount and manifest-push flows (ops W V U X Y M I) the token service answers 200 at once -- C17_token_instant_refines proves that the coarser model is the finer one for such a token service; the JSON decoding of the token answer and the Www-Authenticate parsing (parseChallenge) are not modelled (fixed well-formed answers; C16's)",
         "translated from the sources on every run (layer T; a change of shape is reported, a change of content re-checks the proofs): GenericPolicy.Retry statement by statement (retrydecision), both branches of DefaultPredicate (statuspred, errpred), the arithmetic and the Retry-After constants of ExponentialBackoff (backoffexprs) and its jitter guard (guardedcall), the rewind decisions of auth.rewindRequestBody and of Transport.RoundTrip (rewindchain), the ctx.Err() re-check of the pause select (timerctxcheck), the status constants of auth.Client.Do / fetch*Token / blobStore.Push, completePushAfterInitialPost, Mount / manifestStore.push (statuscmps), the DefaultPolicy numbers; hand-written and tied by correspondence + AST-hash anchors (34 functions): the loop of Transport.RoundTrip, the re-send skeleton of auth.Client.Do, blob push / mount / manifest push composition",
+        "the net/http facts below are re-checked at the start of every harness run against the toolchain in use (checkLibraryFacts: NewRequest's GetBody/ContentLength for *bytes.Reader, unknown readers, ReadClosers and nil; Clone shares Body and GetBody; context.DeadlineExceeded is a net.Error with Timeout(), context.Canceled is not; Client.Do passes Body/GetBody/ContentLength through)",
         "net/http: http.Client.Do passes the request to the RoundTripper unchanged for the status codes used (no 3xx), Request.Clone shares Body and GetBody, NewRequest installs GetBody for *bytes.Reader; url.Error unwrapping; context.DeadlineExceeded is a net.Error with Timeout()=true",
         "the auth client is modelled as far as re-sending goes: first send; on 401 with a Basic/Bearer challenge rewind and re-send (empty token cache), or re-send with the cached token and, if refused, once more with a fresh token (warm Bearer cache); token fetches are served at once by the scripted transport and are not part of the trace; credential, scope and cache logic is C16's",
         "a float64 below -2^63 does not convert to a positive int64 (true on amd64/arm64); hypothesis of the acceptor-completeness theorem only",
